@@ -89,7 +89,7 @@ func replayPrune(c *core.Ctx, lfsBin string, b *behaviour, idx int) (*core.Viola
 				return nil, err
 			}
 		case "serverloses":
-			w.Srv.Delete(repoName, w.Hex(s.str("oid")))
+			w.ServerDelete(s.str("oid"))
 		case "worktree":
 			if err := w.AddWorktree(s.str("b")); err != nil {
 				return nil, err
